@@ -42,6 +42,7 @@ pub fn fuzz_eval(target: &str, data: &[u8]) -> Option<crate::engine::CaseResult>
             let case = c14::case_from_bytes(data).ok()?;
             Some(crate::engine::fuzz::eval_case(|rec| c14::check_case(&case, rec)))
         }
+        "c01_bytes" => Some(crate::engine::fuzz::eval_case(|rec| c01::check_bytes(data, rec))),
         "c02_shape" => {
             let case = c02::case_from_bytes(data).ok()?;
             Some(crate::engine::fuzz::eval_case(|rec| c02::check_case(&case, rec)))
